@@ -52,4 +52,16 @@ MUTANTS = {
         "        let r = inner.references_count.load(Relaxed);\n        #[cfg(feature = \"verif\")] crate::verif::point(crate::verif::ARC_CLONE_BEFORE);\n        inner.references_count.store(r + 1, Relaxed);\n        Self {")]},
     "unique_into_arc_drops_self": {"props": ["C14", "C05"], "edits": [("src/ogre_std/ogre_alloc/ogre_unique.rs",
         "        let undroppable_self = std::mem::ManuallyDrop::new(self);", "        let undroppable_self = self;")]},
+    # ---- C05
+    "revert_fix_ogre_arc_field_order": {"props": ["C05"], "edits": [
+        ("src/multi/channels/ogre_arc/atomic.rs", "    streams_manager:     StreamsManagerBase<MAX_STREAMS>,\n", "    streams_manager:     StreamsManagerBase<MAX_STREAMS>,\n    allocator_first:     OgreAllocatorType,\n"),
+        ("src/multi/channels/ogre_arc/atomic.rs", "            allocator:           OgreAllocatorType::new(),", "            allocator_first:     OgreAllocatorType::new(),"),
+        ("src/multi/channels/ogre_arc/atomic.rs", "    /// backing storage for events\n    allocator:           OgreAllocatorType,\n", ""),
+    ], "sed": [("src/multi/channels/ogre_arc/atomic.rs", "self.allocator", "self.allocator_first")]},
+    "ring_drop_also_drops_free_slots": {"props": ["C05"], "edits": [(AM,
+        "        loop {\n            match self.consume_movable() {\n                None => break,\n                Some(item) => drop(item),\n            }\n        }",
+        "        loop {\n            match self.consume_movable() {\n                None => break,\n                Some(item) => drop(item),\n            }\n        }\n        let b = unsafe { &mut * (self.buffer.get() as *mut Box<[SlotType; BUFFER_SIZE]>) };\n        unsafe { ptr::drop_in_place(b.get_unchecked_mut(0)) };")]},
+    "zc_consume_returns_slot_early": {"props": ["C05", "C01"], "edits": [("src/uni/channels/zero_copy/atomic.rs",
+        "            .map(|(slot_ref, _slot_id)| OgreUnique::<ItemType, OgreAllocatorType>::from_allocated_ref(slot_ref, &self.channel.allocator))",
+        "            .map(|(slot_ref, slot_id)| { if slot_id == 1 { let u = OgreUnique::<ItemType, OgreAllocatorType>::from_allocated_ref(slot_ref, &self.channel.allocator); let a = u.into_ogre_arc(); unsafe { a.increment_references(0); } let c = unsafe { a.raw_copy() }; drop(c); std::mem::forget(a); } OgreUnique::<ItemType, OgreAllocatorType>::from_allocated_ref(slot_ref, &self.channel.allocator) })")]},
 }
